@@ -59,8 +59,12 @@ pub enum Hdrs {
     EmptyDefaults,
     /// compression switched off and an Accept-Encoding of the caller's own: it goes out as supplied
     OwnAcceptEncoding,
+    /// a Content-Length of the caller's own that does not fit the body attached afterwards (copied from
+    /// a template): the framing header of the body's own kind is the library's (bodies of known length
+    /// only: next to a streaming body it would be the other framing header, observation O2)
+    OwnContentLength,
 }
-const HDRS: [Hdrs; 8] = [Hdrs::None, Hdrs::One, Hdrs::DupAppend, Hdrs::ObsText, Hdrs::SetAfterAppend, Hdrs::OwnedOverride, Hdrs::EmptyDefaults, Hdrs::OwnAcceptEncoding];
+const HDRS: [Hdrs; 9] = [Hdrs::None, Hdrs::One, Hdrs::DupAppend, Hdrs::ObsText, Hdrs::SetAfterAppend, Hdrs::OwnedOverride, Hdrs::EmptyDefaults, Hdrs::OwnAcceptEncoding, Hdrs::OwnContentLength];
 
 #[derive(Clone, Copy, Debug, PartialEq, Eq, Serialize, Deserialize)]
 pub enum Auth {
@@ -166,6 +170,7 @@ fn send_a(c: &CaseA) -> Result<(Vec<u8>, Option<Vec<u8>>), String> {
         Hdrs::OwnedOverride => rb = rb.header("Connection", "keep-alive").header("Host", "evil.test"),
         Hdrs::EmptyDefaults => rb = rb.header("User-Agent", "").header("Accept", ""),
         Hdrs::OwnAcceptEncoding => rb = rb.header("Accept-Encoding", "br;q=1, *;q=0").allow_compression(false),
+        Hdrs::OwnContentLength => rb = rb.header("Content-Length", "31"),
     }
     match c.auth {
         Auth::None => {}
@@ -314,6 +319,7 @@ fn check_a(c: &CaseA) -> Vec<(String, String)> {
         Hdrs::SetAfterAppend => vec![("x-dup", vec![b"last"])],
         Hdrs::EmptyDefaults => vec![("user-agent", vec![b""]), ("accept", vec![b""])],
         Hdrs::OwnAcceptEncoding => vec![("accept-encoding", vec![b"br;q=1, *;q=0"])],
+        Hdrs::OwnContentLength => vec![],
     };
     for (name, vals) in exp_hdr {
         let got = req.header_all(name);
@@ -776,6 +782,11 @@ pub fn c07(ctx: &Ctx) -> Report {
                     for auth in AUTHS {
                         for body in BODIES {
                             if body == BodySel::File70k && !(method == 1 && params == 0) {
+                                continue;
+                            }
+                            if hdrs == Hdrs::OwnContentLength
+                                && !matches!(body, BodySel::Text | BodySel::BytesAll | BodySel::File10 | BodySel::File70k | BodySel::File10Seeked | BodySel::File10AtEnd | BodySel::Json | BodySel::Form)
+                            {
                                 continue;
                             }
                             let wms: &[Option<usize>] = if hdrs == Hdrs::None && auth == Auth::None {
